@@ -1,7 +1,7 @@
 (** * The local rules of the classification: selection tables, result transitions, flag
     propagation (C01, C02, C05, C06, C14).  All statements are over every numeric instance. *)
 From Coq Require Import Bool List PArith NArith ZArith FMapPositive.
-From GB Require Import Num Event Cmp Outcome Fields.
+From GB Require Import Prim Num Event Cmp Outcome Fields.
 Set Implicit Arguments.
 
 (** ** semantics of the four operations on memberships *)
@@ -107,9 +107,9 @@ Qed.
 
 (** ** store lemmas *)
 Lemma getE_upd_same (st : store N) i f : getE (upd st i f) i = f (getE st i).
-Proof. unfold getE, upd; cbn. now rewrite PositiveMap.gss. Qed.
+Proof. unfold getE, upd; cbn [st_map]. rewrite !pfind_eq, PositiveMap.gss. unfold getE. rewrite ?pfind_eq. reflexivity. Qed.
 Lemma getE_upd_other (st : store N) i j f : i <> j -> getE (upd st i f) j = getE st j.
-Proof. intros H. unfold getE, upd; cbn. now rewrite PositiveMap.gso by congruence. Qed.
+Proof. intros H. unfold getE, upd; cbn [st_map]. rewrite !pfind_eq, PositiveMap.gso by congruence. unfold getE. rewrite ?pfind_eq. reflexivity. Qed.
 Lemma is_vertical_upd_flags (st : store N) i j f :
   (forall e, e_point (f e) = e_point e /\ e_other (f e) = e_other e) ->
   is_vertical (upd st i f) j = is_vertical st j.
